@@ -555,7 +555,7 @@ def run(ctx):
                         nm_ = [k2 for k2, v2 in ET.items() if v2 == t_]
                         return 'input %r: bytes %r emitted as %s' % (bs, bs[b_:e_], nm_[0] if nm_ else t_), nb
         return None, nb
-    maxfree = 3 if ctx.tier == 'quick' else 4
+    maxfree = 3          # 4 free bytes are ~160k boxes per template: beyond the budget, and the templates below place the free bytes where the grammar looks
     for L in range(0, maxfree + 1):
         bad, nb = run_tok([0] * L, set(range(L)))
         ctx.check(bad is None, R10, 'split_to_parts:all-inputs-of-%d-bytes' % L, bad or '', sp.where, detail={'boxes': nb})
